@@ -54,6 +54,18 @@ CLAIMS = {
         "text": "Static lockset nested-acquire rule over every RelayMap method: a second acquisition of the map's RwLock through a possibly aliasing RelayMap value while a guard is held (one side exclusive) is reported unless excluded by Arc::ptr_eq. Map semantics as values are not decided.",
         "technique": "static lockset (guard lifetimes on MIR) + alias argument from the impl/ADT tables (Clone over Arc)",
     },
+    "C31": {
+        "text": "Decides: writer and reader attribute tables are inverse relations (TransportAddr variant <-> IrohAttr key, user data), same separator and record-name const, and the reader does not truncate values (a `key=value` string is split at the first separator only). Equality of resolved values (URL/address parser semantics) is not decided.",
+        "technique": "match-arm table extraction across writer/reader (incl. closures), constant agreement, iterator-truncation rule on str::Split consumers",
+    },
+    "C32": {
+        "text": "Decides: SignedPacket has three construction sites; from_bytes constructs only after key parse, signature verification over signable(timestamp,payload) with the packet's own key/signature, payload parse and length bounds, all from the same bytes; a constructor-established invariant (valid key bytes, len >= HEADER_SIZE at every site) discharges the accessors' expect/slicing; the server reaches *_unchecked only from store/DHT conversion. Cryptographic strength is not decided.",
+        "technique": "constructor-site inventory + success-edge dominance + derives-from, constructor-established invariant for accessor panics, who-calls",
+    },
+    "C33": {
+        "text": "Atomic-pattern rule on the single static LAST_TIMESTAMP: only a load and compare-exchange style RMWs touch it; now() returns exactly the installed value and only on the RMW's Ok edge; installed = max(clock, expected+1) with expected the RMW's expected operand; failed RMW retries from the observed value. One variable => total modification order under Relaxed.",
+        "technique": "who-uses inventory of the static, success-edge dominance, copy-chain provenance of RMW operands",
+    },
 }
 
 _PENDING = "rules for this property are not implemented yet in this revision (see DESIGN.md §4 for the planned structural clauses)"
